@@ -3,7 +3,7 @@ from tools.drive import Unit
 CH = "asmjit/core/codeholder.cpp"
 UNITS = [
     Unit(name="c03.bind_label", props=["C03", "C14"], tu=CH, roots=["asmjit::CodeHolder::bind_label"], stops=["asmjit::CodeWriterUtils::write_offset"],
-         target="CodeHolder_bind_label", contracts="contracts/c03_bind.h", replace=["CodeWriterUtils_write_offset"], unwind=16, object_bits=9, mem_gb=24,
-         kind="bounded", bound_note="1 label entry, 2 sections (buffers <= 24 bytes), 1 relocation entry, <= 2 pending fixups on the label; offsets, rel, formats, ids symbolic",
+         target="CodeHolder_bind_label", contracts="contracts/c03_bind.h", replace=["CodeWriterUtils_write_offset"], unwind=16, object_bits=9, mem_gb=24, quick_defines=["VERIF_NFIX=1"], thorough_defines=["VERIF_NFIX=2"], timeout=3000,
+         kind="bounded", bound_note="1 label entry, 2 sections (buffers <= 24 bytes), 1 relocation entry, <= 1 (quick) / 2 (thorough) pending fixups on the label; offsets, rel, formats, ids symbolic",
          note="modular: CodeWriterUtils::write_offset replaced by its contract (unit c17.write_offset)"),
 ]
